@@ -68,6 +68,10 @@ class E3(E1):
     pass
 
 
+class B1(BaseException):
+    """A BaseException that is not an Exception (what task cancellation looks like to user code)."""
+
+
 def make_env():
     trail = []
 
@@ -112,11 +116,11 @@ def make_env():
                 raise E2("exit")
             return self.suppress
 
-    env = {"t": t, "rec": rec, "O": O, "CM": CM, "E1": E1, "E2": E2, "E3": E3}
+    env = {"t": t, "rec": rec, "O": O, "CM": CM, "E1": E1, "E2": E2, "E3": E3, "B1": B1}
     return env, trail
 
 
-NATIVE_NAMES = {"t", "rec", "O", "CM", "E1", "E2", "E3"}
+NATIVE_NAMES = {"t", "rec", "O", "CM", "E1", "E2", "E3", "B1"}
 
 
 def _canon(v, ids, depth=0):
@@ -215,7 +219,7 @@ def run_ps(src, family=False, extra=None):
         drive(a.eval())
     except Suspended:
         raise
-    except Exception as e:  # noqa
+    except (Exception, B1) as e:  # noqa
         exc = _exc_chain(e, family)
     return canon_globals(g), tuple(trail), exc
 
@@ -229,7 +233,7 @@ def run_py(src, family=False, extra=None):
     exc = None
     try:
         exec(compile(src, "test", "exec"), g)
-    except Exception as e:  # noqa
+    except (Exception, B1) as e:  # noqa
         exc = _exc_chain(e, family)
     g.pop("__builtins__", None)
     return canon_globals(g), tuple(trail), exc
